@@ -27,6 +27,10 @@ func refValidLabel(s string) bool {
 func verifC20KeyToLabel(n int) {
 	key := vsymString("key", n)
 	out := KeyToLabel(key)
+	if n == 0 && out == "" {
+		vsymFinding("F47", true, "the empty key is mapped to the empty string, which is not a valid label name (a JSON object with an empty key, or a Docker label with an empty key, yields a label no selector can name); TestKeyToLabel pins {\"\" -> \"\"}")
+		return
+	}
 	vsymAssert(refValidLabel(out), "KeyToLabel(k) is a valid label name")
 	vsymAssert(vsymImplies(refValidLabel(key), out == key), "valid names are unchanged")
 	out2 := KeyToLabel(out)
@@ -36,6 +40,7 @@ func verifC20KeyToLabel(n int) {
 	vsymReach("C20_keytolabel")
 }
 
+func VerifHarness_C20_KeyToLabel_0() { verifC20KeyToLabel(0) }
 func VerifHarness_C20_KeyToLabel_1() { verifC20KeyToLabel(1) }
 func VerifHarness_C20_KeyToLabel_2() { verifC20KeyToLabel(2) }
 func VerifHarness_C20_KeyToLabel_3() { verifC20KeyToLabel(3) }
